@@ -231,3 +231,90 @@ Proof.
     + apply sep_nil.
     + apply (sep_end_eol (S " ") (S " bye")); [apply Sp; reflexivity|reflexivity].
 Qed.
+
+(* ====================================================================================================
+   The regenerated grammar, EXECUTED.  Model/Peg.v is a generic PEG interpreter over the grammar data
+   type of Model/Grammar.v; Model/PegActions.v supplies the semantic actions of BQLSemantics and
+   [peg_parse : text -> option stmt] = that interpreter run on Gen.Grammar.grammar, the value
+   regenerated from bql.ebnf on every run.  Proofs/PegProofs.v: a declarative big-step PEG semantics
+   [sem] (no fuel, no memo table; ordered choice commits to the first succeeding alternative, cut,
+   greedy closures, seed-growing left recursion) and the theorems below, for EVERY grammar value. *)
+From Verif Require Import Model.Grammar Model.Peg Model.PegActions Proofs.PegProofs.
+
+(* (a) soundness: whatever the interpreter answers -- for any grammar, lexical configuration, action
+   function, work item, input, frame, seeds, memo table satisfying the table invariant, and fuel -- is
+   what the declarative semantics assigns, and the table invariant is preserved *)
+Theorem C06_peg_sound : forall g lc act fuel sd it s f tb o tb',
+  tbl_ok g lc act tb -> interp g lc act fuel sd it s f tb = Some (o, tb') ->
+  sem g lc act sd it s f o /\ tbl_ok g lc act tb'.
+Proof. exact interp_sound. Qed.
+Print Assumptions C06_peg_sound.
+
+(* the semantics assigns at most one outcome: "the parser implements the grammar" leaves no choice *)
+Theorem C06_peg_sem_deterministic : forall g lc act sd it s f o1,
+  sem g lc act sd it s f o1 -> forall o2, sem g lc act sd it s f o2 -> o1 = o2.
+Proof. exact sem_det. Qed.
+Print Assumptions C06_peg_sem_deterministic.
+
+(* (b) fuel monotonicity, and its corollary: any two sufficient fuels give the same answer *)
+Theorem C06_peg_fuel_monotone : forall g lc act f1 f2, f1 <= f2 ->
+  forall sd it s f tb x, interp g lc act f1 sd it s f tb = Some x -> interp g lc act f2 sd it s f tb = Some x.
+Proof. exact interp_mono. Qed.
+Print Assumptions C06_peg_fuel_monotone.
+
+Theorem C06_peg_fuel_irrelevant : forall g lc act f1 f2 sd it s f tb x1 x2,
+  interp g lc act f1 sd it s f tb = Some x1 -> interp g lc act f2 sd it s f tb = Some x2 -> x1 = x2.
+Proof. exact interp_agree. Qed.
+Print Assumptions C06_peg_fuel_irrelevant.
+
+(* a text accepted by [peg_run] has a derivation of the start rule yielding that node; a rejected text
+   has no successful derivation of the start rule at all *)
+Theorem C06_peg_accept_sound : forall g act cs n,
+  peg_run g act cs = Some (Some n) ->
+  exists r0 rules rest f c,
+    snd g = r0 :: rules /\ f_last f = n /\
+    sem g (cfg_of g) act [] (IExp (GRef (rule_name r0))) cs fr0 (Ok rest f c).
+Proof. exact peg_run_accept_sound. Qed.
+Print Assumptions C06_peg_accept_sound.
+
+Theorem C06_peg_reject_sound : forall g act cs r0 rules,
+  snd g = r0 :: rules -> peg_run g act cs = Some None ->
+  forall rest f c, ~ sem g (cfg_of g) act [] (IExp (GRef (rule_name r0))) cs fr0 (Ok rest f c).
+Proof. exact peg_run_reject_sound. Qed.
+Print Assumptions C06_peg_reject_sound.
+
+(* specialised to the grammar regenerated on this run and the actions of BQLSemantics *)
+Theorem C06_peg_parse_sound : forall cs st,
+  peg_parse cs = Some st ->
+  exists rest f c,
+    sem Verif.Gen.Grammar.grammar (cfg_of Verif.Gen.Grammar.grammar) bql_act [] (IExp (GRef "bql")) cs fr0 (Ok rest f c)
+    /\ to_stmt (conv_fuel cs) (f_last f) = Some st.
+Proof. exact peg_parse_sound. Qed.
+Print Assumptions C06_peg_parse_sound.
+
+(* (c) agreement with the hand-written parser.  FULL STATEMENT (not proved):
+     forall s, wf_stmt s = true -> peg_parse (render (print_stmt s)) = parse_text (render (print_stmt s))
+   (and for every admissible spelling).  Missing: the induction over all well-formed trees through the
+   generic interpreter specialised to the 64 rules.  Proved: the statement on the finite domain
+   [peg_domain] (981 statements SELECT e WHERE e: every leaf kind, every operator over leaves, every
+   parent-operator x child-per-precedence-class x operand-position combination of depth 2), where both
+   parsers also return the erased tree.  The four-way correspondence stream measures the rest. *)
+Theorem C06_peg_agrees_partial : forall s, List.In s peg_domain ->
+  peg_parse (render (print_stmt s)) = parse_text (render (print_stmt s))
+  /\ peg_parse (render (print_stmt s)) = Some (stmt_erase s).
+Proof. exact peg_agrees_partial. Qed.
+Print Assumptions C06_peg_agrees_partial.
+
+Example C06_peg_domain_size : List.length peg_domain = 981%nat.
+Proof. exact peg_domain_size. Qed.
+
+(* the hypotheses are satisfiable: the interpreter accepts a text under the regenerated grammar, with the
+   AST the hand-written parser gives; the empty memo table satisfies the invariant *)
+Example C06_peg_example :
+  peg_parse (S "select a + 1 * 2 /* c */ , f(x).y['k'] AS z from #t where not a = 1 and b in (1, NULL)")
+  = ptext "select a + 1 * 2 /* c */ , f(x).y['k'] AS z from #t where not a = 1 and b in (1, NULL)"
+  /\ peg_parse (S "SELECT 1 +") = None /\ peg_parse (S "SELECT a FROM OPEN ON 2020-01-01 CLOSE CLEAR") <> None.
+Proof. vm_compute. repeat split. discriminate. Qed.
+
+Example C06_peg_table_invariant_satisfiable : forall g lc act, tbl_ok g lc act tbl_empty.
+Proof. exact tbl_empty_ok. Qed.
